@@ -475,6 +475,24 @@ def generate(repo, exclude=None):
             ths, proofs = rs2lean_rc.theorems(u, done)
             theorems += ths
             CUSTOM_PROOFS.update(proofs)
+        # XorShiftRng::from_rng / try_from_rng (the redraw loop around the byte source)
+        try:
+            u, order = rs2lean_rc.build_unit_xorshift_src(repo, report)
+            text, done, skipped = emit_unit(u, order, dict(exclude.get(u.name, {})))
+            parts.append(text)
+            old = report.get("XorShiftRng") or {}
+            sk = {k: v for k, v in (old.get("skipped") or {}).items() if k not in done}
+            sk.update(skipped)
+            report["XorShiftRng"] = dict(old, translated=list(old.get("translated") or []) + done, skipped=sk)
+            for fn, m in (("from_rng", "fromRngFuel"), ("try_from_rng", "tryFromRngFuel")):
+                if fn in done:
+                    theorems.append((f"XorShiftRng.{fn}", f"∀ {{ρ : Type}} (fill : TryFill ρ) (fuel : Nat) (src : ρ), "
+                                     f"Ext.XorShiftRng.{fn} fuel fill src = XorShift.{m} fill fuel src", ["C08", "C09"], fn))
+                    CUSTOM_PROOFS[f"XorShiftRng.{fn}"] = (
+                        "intro ρ fill fuel src\n" + ("  rw [XorShift.tryFromRngFuel_eq]\n" if fn == "try_from_rng" else "") +
+                        f"  exact loopF_redraw fill _ (by intro b r; rfl) fuel (List.replicate 16 (0#8)) src")
+        except Exception as e:
+            report["XorShiftRng"] = dict(report.get("XorShiftRng") or {}, src_error=repr(e))
         # the wrapper types Hc128Rng / IsaacRng / Isaac64Rng (newtypes of BlockRng / BlockRng64 of the translated cores)
         avail = set()
         for part in parts:
